@@ -35,6 +35,7 @@ CHECKS.update({
  'C05': A("eps-jets through the real correct_pva, compute_state_difference (Series branch, including to_180_range), transform_to_output / transform_to_internal, sim.perturb_pva, perturb_lla in both altitude modes: the output-to-internal transform is a left inverse, the eps^1 coefficient of state_difference(pva, correct_pva(pva, eps x)) equals T_out x, perturb-then-correct restores the state to first order, the residual is exactly second order (non-zero eps^2 coefficient witnessed), 2D rows down/VD of T_out identically zero and correct_pva returns alt and VD unchanged through eps^2.", "DESIGN.md 5/C05"),
  'C06': A("The real Position / NedVelocity / BodyVelocity.compute_matrices and their Jacobian helpers on symbolic state, lever arm (none or symbolic), body rates (present/absent), both altitude modes: H x equals the eps^1 coefficient of z(pva) - z(correct_pva(pva, eps x)), z equals predicted minus measured against an independent oracle, R = sd^2 I of matching dimension, absent time returns None, simulated measurements with a symbolic error give residual -e.", "DESIGN.md 5/C06"),
  'C15': A("The real compute_increments_from_imu (both sensor types) on formal-interval samples of polynomial signals with symbolic vector coefficients against the Peano-Baker series of the exact attitude and body-frame velocity integral: for linear signals the rotation is exact through T^4, the velocity increment through T^2 and its only T^3 discrepancy is (1/6) a x (a x d); generic quadratic signals agree below the algorithm order; table shape for irregular symbolic stamps.", "DESIGN.md 5/C15"),
+ 'C14': A("The real EstimationModel / Parameters code with symbolic standard deviations whose signs decide the enable bits (bias, walk, noise fork on every path; scale-misalignment masks enumerated): dimensions of states/P/F/G/H/J/q/v mutually consistent, P = diag(sd^2), q and G map enabled walks to their bias states, state names = the simulator's parameter-table columns, output_matrix(r) x = (T-I) r + b, estimates accumulate, correct_increments undoes the noise-free simulated error for irregular stamps (both DataFrame and Series forms), coefficients of the random draws = noise/sqrt(dt), noise sqrt(dt), walk sqrt(dt); walk without bias raises.", "DESIGN.md 5/C14"),
 })
 
 NA = {
